@@ -333,6 +333,14 @@ def abort_oracle(v, S, t_abort, tick_abort, what):
             c = v.first(m, 'cancelled') if not v.is_sched(m) else (v.first(m, 'run-cancelled') or v.first(m, 'exit-raise') or v.first(m, 'exit-ret'))
             if not (fin is not None and fin[1] == t_abort) and (c is None or (not v.is_sched(m) and c[1] != t_abort)):
                 return '%s: %s, waiting for a slot at the %s, got one in that instant and was not cancelled then' % (S, m, what)
+    # "... and ends, after those cancellations": the run is not over before every job it cancelled has unwound
+    if end is not None and end[2] != 'run-cancelled':
+        for m in v.b.members[S]:
+            c = v.first(m, 'cancelled') if not v.is_sched(m) else None
+            if c is not None and c[1] >= t_abort and c[0] < end[0]:
+                fin = v.first(m, 'cancel-done')
+                if fin is None or fin[0] > end[0]:
+                    return '%s: run ended (tick %d, vt %s) before the cancellation of %s had completed' % (S, end[0], end[1], m)
     if end is not None and end[1] > t_abort + slack(v, S) + 1e-9:
         return '%s: run ended at %s, later than %s + cancellation/shutdown slack %s' % (S, end[1], t_abort, slack(v, S))
     return None
